@@ -8,7 +8,7 @@ From Coq Require Import List String ZArith NArith Bool Lia Permutation Sorted.
 From PintV Require Import Common.Bytes Common.Sorting Gen.Tables Model.Severity Model.SummarySort.
 From PintV Require Import Proofs.C11_order Proofs.C11_perm Proofs.C11_monitor.
 From PintV Require Proofs.C11_stable_sort.
-From PintV Require Import Model.ScanLTS Model.JobEnum Proofs.C11_lts Proofs.C11_lts_order Proofs.C11_jobs.
+From PintV Require Import Model.ScanLTS Model.JobEnum Proofs.C11_lts Proofs.C11_lts_order Proofs.C11_lts_example Proofs.C11_jobs.
 From PintV Require Gen.C11.
 From PintV Require Import Model.ScanSkeleton.
 Import ListNotations.
@@ -67,6 +67,16 @@ Theorem C11_protocol_preserves_job_order : forall (J A : Type) (run : J -> list 
   interleaving (map run js) (summary J A s).
 Proof. intros. now apply (arrival_is_interleaving J A run cap n). Qed.
 Print Assumptions C11_protocol_preserves_job_order.
+
+(** Non-vacuity of the protocol theorems, and the reason the permutation theorem is needed: with two workers and two
+    one-report jobs there is a complete (maximal) run delivering [1; 2] and a complete run delivering [2; 1]. *)
+Example C11_protocol_nonvacuous :
+  (exists k s, steps nat nat ex_run 2 (init nat nat 2 [1; 2]%nat) k s /\ done nat nat s = true /\
+               summary nat nat s = [1; 2]%nat /\ (forall s', ~ step nat nat ex_run 2 s s')) /\
+  (exists k s, steps nat nat ex_run 2 (init nat nat 2 [1; 2]%nat) k s /\ done nat nat s = true /\
+               summary nat nat s = [2; 1]%nat).
+Proof. split; [exact run_in_order|exact run_swapped]. Qed.
+Print Assumptions C11_protocol_nonvacuous.
 
 (** The transition system is the protocol of the CURRENT source: the concurrency skeleton of checkRules and
     scanWorker extracted from the Go AST this run (Gen/C11.v, translator/ext_C11.go) is the one Model/ScanLTS.v was
